@@ -333,9 +333,22 @@ pub struct Sys {
     /// any more because of a known leak finding (F4/F5): registry totals are then lower bounds.
     pub leaked_tracked: i64,
     pub leaked_z: i64,
+    /// Every direct handle ever obtained in this history (one per live entity after every step), with the
+    /// number of removals its archetype had seen when it was obtained: once a removal follows, it must stay dead.
+    pub tracked_direct: Vec<TrackedDirect>,
     /// Known-finding signatures that were hit in this execution (reported, not violations).
     pub known_hits: Vec<String>,
     pub known: std::sync::Arc<Vec<KnownFinding>>,
+}
+
+#[derive(Clone, Debug)]
+pub struct TrackedDirect {
+    pub w: usize,
+    pub a: u8,
+    pub uid: u32,
+    pub d: EntityDirectAny,
+    pub born_removals: u64,
+    pub born_creations: u64,
 }
 
 #[derive(Clone, Debug, Serialize, Deserialize)]
@@ -392,6 +405,7 @@ impl Sys {
             c: Counters::default(),
             leaked_tracked: 0,
             leaked_z: 0,
+            tracked_direct: Vec::new(),
             known_hits: Vec::new(),
             known,
         })
@@ -691,6 +705,15 @@ impl Sys {
         if last && !pre_direct.is_empty() {
             self.check_direct_transition(&pre_direct, &pre_removals, &pre_creations)?;
         }
+        if self.sc.want("C09") {
+            if let Op::CloneWorld { w } = op {
+                // the clone must answer like the original: it inherits the original's handles, dead or alive
+                let nw = self.worlds.len() - 1;
+                let inherited: Vec<TrackedDirect> = self.tracked_direct.iter().filter(|t| t.w == *w as usize).cloned().map(|mut t| { t.w = nw; t }).collect();
+                self.tracked_direct.extend(inherited);
+            }
+            self.track_direct(last)?;
+        }
         if last && !pre_dumps.is_empty() {
             for (w, d) in pre_dumps.iter().enumerate() {
                 if Some(w) != touched && self.world_alive(w) {
@@ -786,7 +809,8 @@ impl Sys {
         if let Some(e) = created {
             let any: EntityAny = e.into();
             let bits = any.raw();
-            ensure!(!m.issued(bits), "C08", "handle-reissued", "create returned {:?} whose bits {:?} were issued before in this world", e, bits);
+            // A reissued handle breaks C08 and, at the same moment, C01: every stale copy of the old handle now resolves.
+            ensure!(!m.issued(bits), "C08,C01", "handle-reissued", "create returned {:?} whose bits {:?} were issued before in this world (every stale copy of that handle now designates the new entity)", e, bits);
             ensure!(e.archetype_id() == A::ARCHETYPE_ID && any.archetype_id() == A::ARCHETYPE_ID && (bits.0 & 0xff) as u8 == A::ARCHETYPE_ID,
                 "C14", "archetype-id-of-created-handle", "handle {:?} created by {} does not carry ARCHETYPE_ID {}", any, A::NAME, A::ARCHETYPE_ID);
             ensure!(len1 == len0 + 1 && !empty1, "C12", "len-after-create", "len went from {} to {} on create", len0, len1);
@@ -1143,6 +1167,79 @@ impl Sys {
                 ensure!(d0 == self.dumps(*w), "C09", "stale-direct-destroy-mutated", "destroy with stale direct handle {:?} changed the world", d);
             } else {
                 self.c.direct_survived += 1;
+            }
+        }
+        Ok(())
+    }
+
+    /// Whole-history direct-handle oracle: (a) a removal must leave the archetype at a version that no handle
+    /// obtained before it carries (otherwise a later entity at the same index would be handed a bit-identical
+    /// value); (b) every handle obtained earlier in the history whose archetype has seen a removal since is
+    /// rejected now - and at every later step, whatever happened in between; then the handles of the current
+    /// live entities are added.
+    fn track_direct(&mut self, last: bool) -> R {
+        use crate::look::*;
+        for i in 0..self.tracked_direct.len() {
+            let t = self.tracked_direct[i].clone();
+            if !self.world_alive(t.w) {
+                continue;
+            }
+            let m = &self.models[t.w];
+            let removed = m.removals[t.a as usize] > t.born_removals;
+            if !removed {
+                continue;
+            }
+            let world = self.worlds[t.w].as_mut().unwrap();
+            // (a) the version moved away from the one the old handle carries
+            let same_version = guard("C09", "version() after a removal", || {
+                Ok(with_arch!(t.a as usize, A => {
+                    let td = EntityDirect::<A>::from_any(t.d);
+                    // same index at the archetype's present version: equal iff the version did not move
+                    let idx = crate::probe::direct_index_of(&t.d);
+                    <A as Arch>::forge_direct(idx, <A as Arch>::x_version(world)) == td
+                }))
+            })?;
+            ensure!(!same_version, "C09", "removal-kept-archetype-version", "direct handle {:?} was obtained before an entity was removed from its archetype, yet the archetype is (again) at the version the handle carries: an entity placed at that index now gets a bit-identical handle", t.d);
+            // (b) dead and staying dead
+            self.c.direct_probes += 1;
+            let mut res: Vec<LookRes> = Vec::new();
+            guard("C09", "lookup of a direct handle that died earlier", || {
+                with_arch!(t.a as usize, A => {
+                    let td = EntityDirect::<A>::from_any(t.d);
+                    if last {
+                        res.extend(lookups::<A>(world, Hk::D(td), false));
+                        res.extend(lookups::<A>(world, Hk::DAny(t.d), false));
+                    } else {
+                        let c = <A as Arch>::x_contains(world, Hk::D(td), Via::Arch) || <A as Arch>::x_resolve(world, Hk::DAny(t.d)).is_some();
+                        res.push(LookRes { path: PathId::Contains(Via::Arch, 2), class: "contains", world_level: false, look: if c { Look::Accepted } else { Look::Rejected }, bits: None, direct: None });
+                    }
+                });
+                Ok(())
+            })?;
+            for r in res {
+                if r.look.accepted() {
+                    let sig = format!("direct-revived:{}", r.class);
+                    return vio!("C09", sig, "direct handle {:?} (obtained for uid {}, dead since a removal from its archetype) is accepted again by {} ({:?})", t.d, t.uid, r.path, r.look);
+                }
+            }
+        }
+        // add the handles of the present live entities
+        for w in 0..self.worlds.len() {
+            if !self.world_alive(w) {
+                continue;
+            }
+            for a in 0..NARCH {
+                for b in self.models[w].order[a].clone() {
+                    let ent = self.models[w].live[&b].clone();
+                    let world = self.worlds[w].as_ref().unwrap();
+                    let d = guard("C09", "to_direct", || Ok(with_arch!(a, A => <A as Arch>::x_to_direct(world, Hk::E(typed::<A>(ent.any)), Via::World))))?;
+                    if let Some(d) = d {
+                        if !self.tracked_direct.iter().any(|t| t.w == w && t.a == a as u8 && t.d == d && t.uid == ent.uid) {
+                            let m = &self.models[w];
+                            self.tracked_direct.push(TrackedDirect { w, a: a as u8, uid: ent.uid, d, born_removals: m.removals[a], born_creations: m.creations[a] });
+                        }
+                    }
+                }
             }
         }
         Ok(())
